@@ -71,7 +71,7 @@ def main():
     cases = []
     if thorough:
         gen = vlib.tlc("MCSourceMapGen", "gen.cfg", workers=1, timeout=900,
-                       files={"gen.cfg": cfg("SourceMapGen_gen.cfg", MaxRunes="3")})
+                       files={"gen.cfg": cfg("SourceMapGen_gen.cfg", MaxRunes="3", Pres="PresTwo")})
     else:
         gen = vlib.tlc("MCSourceMapGen", "SourceMapGen_gen.cfg", workers=1, timeout=600)
     if not gen.ok:
@@ -80,7 +80,7 @@ def main():
     cases += gen.tagged("CASE")
     n_bfs = len(cases)
     # random shapes from the full grid (3 lines x 4 runes x widths 1..4, texts of 0..2 multi-byte runes)
-    num = 150000 if thorough else 12000
+    num = 100000 if thorough else 8000
     sim = vlib.tlc("MCSourceMapGen", "SourceMapGen_sim.cfg", workers=1, simulate="num=%d" % num, depth=24,
                    tlc_seed=ck.seed, timeout=900)
     if sim.violated:
@@ -188,7 +188,7 @@ def main():
     ck.set("per_slot", s["per_slot"])
     ck.set("per_expression_holder", s["per_holder"])
     ck.set("failing_events", len(bad))
-    ck.set("bounds", {"mc": [m[0] for m in mcs], "gen_exhaustive": "2 lines x %d runes, widths 1..4, 3 texts in front" % (3 if thorough else 2),
+    ck.set("bounds", {"mc": [m[0] for m in mcs], "gen_exhaustive": "2 lines x %d runes, widths 1..4, %d texts in front" % ((3, 2) if thorough else (2, 3)),
                       "gen_simulated": "3 lines x 4 runes, widths 1..4, 13 texts in front (0-2 multi-byte runes)"})
     ck.assume("target text = generator.Generate's unformatted output (what the LSP proxy sends to gopls with this map)")
     ck.assume("positions are byte columns (parse.Input / RangeWriter); UTF-16 column conversion of LSP clients is outside the property")
